@@ -289,10 +289,12 @@ def dist_terms_rule(ctx):
     # --- MADE mixture: logsumexp over the component axis, then sum over features
     mog = p.find_class("MixtureOfGaussiansMADE", "nflows.nn.nde.made")
     lp = mog.methods.get("log_prob")
+    from ..canon import canon as _canon
+
     for path in paths_of(lp.node):
         if path.kind != "return":
             continue
-        r = path.ret
+        r = _canon(path.ret)  # one spelling: torch.sum(torch.logsumexp(body, -1), -1)
         okm = False
         if isinstance(r, ast.Call) and norm_text(r.func) == "torch.sum" and const_number(_kwarg(r, "dim", 1) or ast.Constant(value=None)) == -1:
             inner = r.args[0]
@@ -314,7 +316,7 @@ def dist_terms_rule(ctx):
                                     parts.add("log2pi")
                                 elif "torch.log(" in tx and "2 *" in tx:
                                     parts.add("2logstd")
-                                elif "** 2" in tx or ".pow(2)" in tx:
+                                elif "** 2" in tx or ".pow(2)" in tx or ("torch.pow(" in tx and tx.rstrip().endswith(", 2)")):
                                     parts.add("quad")
                 okm = has_mix and half and parts == {"log2pi", "2logstd", "quad"}
         if okm:
